@@ -78,6 +78,10 @@ func (a *aggregatedLabels) Key() logqlmetric.GroupingKey {
 	a.forEach(func(k, v string) {
 		visible = append(visible, labelEntry{name: k, value: v})
 	})
+	if len(visible) == 0 {
+		// Same key as logqlmetric's empty label set (vector(), literals).
+		return 0
+	}
 	slices.SortFunc(visible, func(x, y labelEntry) int {
 		return strings.Compare(x.name, y.name)
 	})
